@@ -282,6 +282,12 @@ def cross(
         prev_one = reading_by_index(candles, indicator_one, idx - 1)
         prev_two = reading_by_index(candles, indicator_two, idx - 1)
 
+        if not all(
+            isinstance(reading, (float, int))
+            for reading in (reading_one, reading_two, prev_one, prev_two)
+        ):
+            continue
+
         if (reading_one < reading_two and prev_one <= prev_two) or (
             reading_one > reading_two and prev_one >= prev_two
         ):
